@@ -42,6 +42,11 @@ class C04(CheckBase):
             case['image'] = dfswork.gen_image(rng, 'single', img_id=5)
         elif kind == 'interleaved':
             case['image'] = dfswork.gen_image(rng, 'interleaved', img_id=5)
+            if rng.chance(0.3):
+                # only one side was ever formatted: the other holds a formatter's filler (no catalogue at all)
+                which = 1      # (an image whose first side has no catalogue cannot be identified at all, by design)
+                s0 = case['image']['surfaces'][which]
+                case['image']['surfaces'][which] = dd.Surface('blank', s0['tracks'], s0['spt'], [], 5, which, rng.choice([0xE5, 0x00, 0xFF, 0x4E])).to_json()
         elif kind == 'two-sided':
             im = dfswork.gen_image(rng, 'interleaved', img_id=5)
             im['ext'] = 'ssd' if im['ext'] == 'dsd' else 'sdd'
@@ -170,6 +175,11 @@ class C04(CheckBase):
                 out.sig(case['kind'], ext, geo, fk, case['fmode'], 'open-failed')
                 return
             out.sig(case['kind'], ext, geo, '-', '-', 'rejected')
+            if any(sf['variant'] == 'blank' for sf in image['surfaces']):
+                # the probing rules want a catalogue on both sides of an interleaved image; an image with an
+                # unformatted side may be refused.  What must not happen is accepting it and mapping it wrongly.
+                out.probe('image-with-unformatted-side-rejected')
+                return
             out.violate('C04.a', '%s: a well-formed image was rejected: %s' % (what, j['error'][:160]), dict(desc, what='rejected'), case)
             return
         drives = {d['n']: d for d in j['drives']}
